@@ -461,6 +461,10 @@ func (s *Server) handleConnReceiver(module *Module, crd *rsyncwire.CountingReade
 		},
 		Dest: module.Path,
 		Env: &rsyncos.Env{
+			// A daemon has no standard output. What the transfer code
+			// prints for a command line user (-n, --progress, --list-only
+			// requested by the peer) must not be written to a nil Writer.
+			Stdout: io.Discard,
 			Stderr: s.stderr,
 		},
 		Conn:     c,
@@ -566,6 +570,10 @@ func (s *Server) handleConnSender(module *Module, crd *rsyncwire.CountingReader,
 		Conn:   c,
 		Seed:   sessionChecksumSeed,
 		Env: &rsyncos.Env{
+			// A daemon has no standard output. What the transfer code
+			// prints for a command line user (-n, --progress, --list-only
+			// requested by the peer) must not be written to a nil Writer.
+			Stdout: io.Discard,
 			Stderr: s.stderr,
 		},
 		Progress: progress.NewPrinter(io.Discard, time.Now),
